@@ -64,6 +64,125 @@ def _delegates_to_from(v, va, from_path):
     return rv.op == "agg" and rv.args[2] == "Ok" and rv.args[3] and rv.args[3][0] is va.call_term(calls[0][0])
 
 
+def _strip(x):
+    while x.op in ("ref", "mem", "memval"):
+        x = x.args[0]
+    return x
+
+
+_NT_CALLS = ("core::ops::Try>::branch", "FromResidual", "core::option::Option::<T>::ok_or_else", "core::option::Option::<T>::ok_or",
+             "core::result::Result::<T, E>::map", "core::option::Option::<T>::map", "de::Error::invalid_length", "de::Error::custom",
+             "de::Error::missing_field")
+
+
+def _newtype_pair(prog, res, p, adt, im):
+    """a hand-written pair on a one-field struct in the transparent form serde_derive itself emits for a newtype:
+         serialize   = serializer.serialize_newtype_struct(NAME, &self.0)
+         deserialize = deserializer.deserialize_newtype_struct(NAME, V)   with V building the value only as  Ctor(<Field as Deserialize>::deserialize(d)?)
+                       (visit_newtype_struct)  or  Ctor(seq.next_element::<Field>()??)  (visit_seq)
+       The pair is then mutually inverse whenever the field's pair is (which Z-graph establishes for the field type).  -> True when an obligation was emitted."""
+    vs = adt["variants"]
+    if len(vs) != 1 or len(vs[0]["fields"]) != 1 or adt.get("kind", "struct") == "enum":
+        return False
+    fty = ty_str(vs[0]["fields"][0]["ty"])
+    esc = re.escape(p)
+    ser = next((g for q, g in prog.fns.items() if re.fullmatch(r"<%s(<.*>)? as .*::Serialize>::serialize" % esc, q)), None)
+    de = next((g for q, g in prog.fns.items() if re.fullmatch(r"<%s(<.*>)? as .*::Deserialize>::deserialize" % esc, q)), None)
+    if ser is None or de is None:
+        return False
+    why = []
+    name = [None, None]
+
+    def single(f, suffix, which):
+        fa = FA(f, prog)
+        cs = [(b, t) for b, t in f.calls()]
+        if f.loops() or len(cs) != 1 or not (callee_of(cs[0][1]) or "").endswith(suffix):
+            why.append("%s is not the single call of %s" % (f.path.rsplit("::", 1)[1], suffix))
+            return None, None
+        b, t = cs[0]
+        a = fa.call_args(b)
+        rets = f.return_blocks()
+        if len(rets) != 1 or fa.end_val(0, rets[0]) is not fa.call_term(b):
+            why.append("%s does not return the result of %s" % (f.path.rsplit("::", 1)[1], suffix))
+        x = _strip(a[0])
+        if not (x.op == "arg"):
+            why.append("%s is not called on the (de)serializer argument" % suffix)
+        name[which] = show(a[1], fa.names)
+        return a, t
+    a, t = single(ser, "Serializer::serialize_newtype_struct", 0)
+    if a is not None:
+        x = a[2]
+        while x.op == "ref":
+            x = x.args[0]
+        s = show(a[2], FA(ser, prog).names)
+        if not re.fullmatch(r"&\*?\(?\*?self\)?\.0", s.replace(" ", "")):
+            why.append("serialize hands %s to the serializer, not &self.0" % s)
+    a, t = single(de, "Deserializer::deserialize_newtype_struct", 1)
+    vis = None
+    if a is not None:
+        if name[0] != name[1]:
+            why.append("the struct name differs between the two impls (%s / %s)" % (name[0], name[1]))
+        ca = t.get("cargs") or []
+        vis = ca[1].get("path") if len(ca) > 1 and isinstance(ca[1], dict) else None
+        if vis is None:
+            why.append("the visitor type is not a crate type")
+    if vis:
+        methods = {q.rsplit("::", 1)[1]: g for q, g in prog.fns.items() if q.startswith("<" + vis) and "Visitor>::" in q and "{closure" not in q}
+        extra = set(methods) - {"expecting", "visit_newtype_struct", "visit_seq"}
+        if extra:
+            why.append("the visitor overrides %s" % sorted(extra))
+        if "visit_newtype_struct" not in methods:
+            why.append("the visitor has no visit_newtype_struct")
+        for mname, src_suffix in (("visit_newtype_struct", "Deserialize>::deserialize"), ("visit_seq", "SeqAccess::next_element")):
+            g = methods.get(mname)
+            if g is None:
+                continue
+            res.fn(g)
+            ga = FA(g, prog)
+            srcs, ctors = [], []
+            for b, t2 in g.calls():
+                c = callee_of(t2) or ""
+                if c.endswith(src_suffix):
+                    srcs.append((b, t2))
+                elif c == p:
+                    ctors.append(b)
+                elif not any(k in c for k in _NT_CALLS):
+                    why.append("%s calls %s" % (mname, c))
+            for blk in g.rec["blocks"]:
+                for st in blk["stmts"]:
+                    rv = st.get("rv") or {}
+                    if rv.get("k") == "aggregate" and rv.get("path") == p:
+                        why.append("%s builds the value field by field" % mname)
+            if g.loops() or len(srcs) != 1 or len(ctors) != 1:
+                why.append("%s: %d source calls, %d constructor calls, %d loops" % (mname, len(srcs), len(ctors), len(g.loops())))
+                continue
+            sb, stt = srcs[0]
+            sca = stt.get("cargs") or []
+            styp = [ty_str(x) for x in sca if isinstance(x, dict)]
+            if fty not in styp and not any(ty_str(x).split("<")[0] == fty.split("<")[0] for x in sca if isinstance(x, dict)):
+                why.append("%s deserialises %s, the field is %s" % (mname, styp, fty))
+            x = _strip(ga.call_args(sb)[0])
+            if not (x.op in ("arg", "loc") and x.args[1] == 2):
+                why.append("%s does not read from its own argument" % mname)
+            ca2 = ga.call_args(ctors[0])[0]
+            # the constructor's operand is the Ok payload (and for visit_seq the Some payload of it) of the source call
+            y = ca2
+            for _ in range(12):
+                if y.op in ("field", "downcast"):
+                    y = y.args[0]
+                elif y.op == "call" and "ops::Try" in y.args[0] and y.args[0].endswith("::branch") and y.args[1]:
+                    y = y.args[1][0]
+                else:
+                    break
+            if y is not ga.call_term(sb):
+                why.append("%s wraps %s, not the value just deserialised" % (mname, show(ca2, ga.names)))
+    res.fn(ser)
+    res.fn(de)
+    res.ob("Z-graph", "%s | hand-written pair is the transparent newtype form (serialize_newtype_struct(&self.0) / deserialize_newtype_struct with a visitor "
+           "that only wraps the deserialised field)" % p, not why, "; ".join(why[:4]), adt["loc"])
+    return True
+
+
 def rule_graph(prog, res, repo):
     graph, ext = type_graph(prog)
     res.floor("Z-graph", "crate types reachable from Message", len(graph), 250)
@@ -91,6 +210,8 @@ def rule_graph(prog, res, repo):
         derived = im["ser"]["derived"] and im["de"]["derived"]
         if p in HAND:
             res.ob("Z-graph", "%s | hand-written impls are the reviewed ones" % p, not im["ser"]["derived"] and not im["de"]["derived"], "", graph[p]["loc"])
+        elif not derived and _newtype_pair(prog, res, p, graph[p], im):
+            pass
         else:
             res.ob("Z-graph", "%s | both impls are derived (symmetric by construction)" % p, derived,
                    "Serialize derived=%s Deserialize derived=%s: a hand-written impl needs its own rule" % (im["ser"]["derived"], im["de"]["derived"]), graph[p]["loc"])
